@@ -7,6 +7,7 @@ from typing import List, Optional
 
 from ..cfg import CFG, ENTRY, EXIT
 from ..core import AnalysisError, FunctionInfo, Project, dotted, is_const, kwarg, norm, param_names, walk_no_nested
+from .. import sym
 from ..util import assignments, count_negations, header_walk, mentions, returns_of, stmt_text
 from .shared import MAT
 
@@ -76,44 +77,38 @@ def r1(ctx):
 def r2(ctx):
     P = ctx.project
     g = P.func(f"{MAT}._get_scoped_terms_spanned_by_evaled_factors")
-    lp = [n for n in walk_no_nested(g.node) if isinstance(n, ast.For)]
-    if not lp:
+    try:
+        outs = sym.outcomes(g.node)
+    except sym.Unmodelled as e:
+        raise AnalysisError(f"C03.R2: cannot be summarised: {e}")
+    lps = sym.loops_of(outs)
+    if not lps:
         raise AnalysisError("C03.R2: factor loop not found")
-    lp = lp[0]
-    fv = lp.target.id
-    chain = lp.body[0] if lp.body and isinstance(lp.body[0], ast.If) else None
-    arms = []
-    n = chain
-    while isinstance(n, ast.If):
-        arms.append((n.test, n.body))
-        n = n.orelse[0] if len(n.orelse) == 1 and isinstance(n.orelse[0], ast.If) else (n.orelse or None)
-        if isinstance(n, list):
-            arms.append((None, n))
-            break
+    lp = lps[0]
+    fv = norm(lp._sym_orig.target)
     ctx.look()
-    span_arm = [b for t, b in arms if t is not None and norm(t) == f"{fv}.metadata.spans_intercept"]
-    else_arm = [b for t, b in arms if t is None]
-    ok1 = len(span_arm) == 1 and len(span_arm[0]) == 1 and re.fullmatch(
-        r"factors\.append\(\(ScopedFactor\(%s, reduced=True\), 1\)\)" % fv, norm(span_arm[0][0])) is not None
-    ctx.check(ok1, "C03.R2", "a factor spanning the intercept contributes exactly {reduced factor, 1}", g.module.line(lp),
+    K, S = f"{fv}.metadata.kind is Factor.Kind.CONSTANT", f"{fv}.metadata.spans_intercept"
+    span = sym.iteration_effects(outs, lp, {K: False, S: True})
+    other = sym.iteration_effects(outs, lp, {K: False, S: False})
+    const = sym.iteration_effects(outs, lp, {K: True})
+    b1 = sym.pm(f"VAR_alts.append((ScopedFactor({fv}, reduced=True), 1))", span[0][1][0]) if len(span) == 1 and len(span[0][1]) == 1 else None
+    ctx.check(b1 is not None, "C03.R2", "a factor spanning the intercept contributes exactly {reduced factor, 1}", g.module.line(lp._sym_orig),
               ctx.construct(g, text="alternatives spans_intercept"),
-              f"expected factors.append((ScopedFactor({fv}, reduced=True), 1)); found `{stmt_text(span_arm[0][0]) if span_arm else None}`")
-    ok2 = len(else_arm) == 1 and len(else_arm[0]) == 1 and norm(else_arm[0][0]) in (
-        f"factors.append((ScopedFactor({fv}),))", f"factors.append((ScopedFactor({fv}, reduced=False),))")
-    ctx.check(ok2, "C03.R2", "any other non-constant factor contributes exactly {full factor}", g.module.line(lp),
-              ctx.construct(g, text="alternatives other"), f"found `{stmt_text(else_arm[0][0]) if else_arm else None}`")
-    r = returns_of(g.node)
-    gens = [x for x in ast.walk(r[0].value) if isinstance(x, ast.GeneratorExp)] if r else []
-    ok3 = False
-    if gens:
-        outer = [x for x in gens if (dotted(x.generators[0].iter.func) if isinstance(x.generators[0].iter, ast.Call) else "") == "itertools.product"]
-        if outer and norm(outer[0].generators[0].iter) == "itertools.product(*factors)":
-            pv = outer[0].generators[0].target.id
-            inner = [x for x in gens if x is not outer[0] and norm(x.generators[0].iter) == pv]
-            if inner and len(inner[0].generators[0].ifs) == 1 and norm(inner[0].generators[0].ifs[0]) in (f"{inner[0].generators[0].target.id} != 1",):
-                ok3 = True
-    ctx.check(ok3 and norm(r[0].value).startswith("OrderedSet("), "C03.R2", "the span is the ordered product over the alternatives with the 1s dropped",
-              g.where, ctx.construct(g, text="product"), f"return is `{norm(r[0].value)[:130] if r else None}`")
+              f"expected <alternatives>.append((ScopedFactor({fv}, reduced=True), 1)); found {[[norm(e)[:90] for e in x[1]] for x in span]}")
+    b2 = sym.pm_any([f"VAR_alts.append((ScopedFactor({fv}),))", f"VAR_alts.append((ScopedFactor({fv}, reduced=False),))"], other[0][1][0]) \
+        if len(other) == 1 and len(other[0][1]) == 1 else None
+    ctx.check(b2 is not None and (b1 is None or b1["VAR_alts"] == b2["VAR_alts"]) and all(not any("append" in norm(e) for e in x[1]) for x in const), "C03.R2",
+              "any other non-constant factor contributes exactly {full factor}", g.module.line(lp._sym_orig),
+              ctx.construct(g, text="alternatives other"), f"found {[[norm(e)[:90] for e in x[1]] for x in other]} (constants: {[[norm(e)[:60] for e in x[1]] for x in const]})")
+    alts = (b1 or b2 or {}).get("VAR_alts", "factors")
+    fin = [o for o in outs if not o.loops and o.kind == "return"]
+    PROD = [f"OrderedSet((ScopedTerm(factors=(VAR_p for VAR_p in VAR_c if VAR_p != 1), scale=ANY_s) for VAR_c in itertools.product(*{alts})))",
+            f"OrderedSet([ScopedTerm(factors=(VAR_p for VAR_p in VAR_c if VAR_p != 1), scale=ANY_s) for VAR_c in itertools.product(*{alts})])",
+            f"OrderedSet((ScopedTerm(factors=[VAR_p for VAR_p in VAR_c if VAR_p != 1], scale=ANY_s) for VAR_c in itertools.product(*{alts})))",
+            f"OrderedSet((ScopedTerm(factors=tuple((VAR_p for VAR_p in VAR_c if VAR_p != 1)), scale=ANY_s) for VAR_c in itertools.product(*{alts})))"]
+    ok3 = len(fin) == 1 and sym.pm_any(PROD, fin[0].value) is not None
+    ctx.check(ok3, "C03.R2", "the span is the ordered product over the alternatives with the 1s dropped",
+              g.where, ctx.construct(g, text="product"), f"return is `{norm(fin[0].value)[:130] if fin else None}`")
     # default of ScopedFactor.reduced is False
     sf = P.method("formulaic.materializers.types.scoped_factor.ScopedFactor", "__init__")
     d = sf.node.args.defaults
